@@ -83,8 +83,10 @@ def phaseKey (C : Crypto) (key : Bytes) (side phase : String) : Bytes :=
 /-- `dict_to_bytes({"pake_v1": hex(msg1)})`, abstracted to a tag byte in front of the element -/
 def pakeBody (m : Bytes) : Bytes := 1 :: m
 
-/-- `bytes_to_dict(body)` + `"pake_v1" in payload`: `none` = the key is absent (`got_pake_bad`).
-    (Bodies that are not JSON objects raise in the real code; that path belongs to C02/C14.) -/
+/-- the `try:` block of `_SortedKey.got_pake`: `bytes_to_dict(body)` and
+    `hexstr_to_bytes(payload["pake_v1"])`; `none` = any of the caught exceptions
+    `(AssertionError, KeyError, TypeError, ValueError, RecursionError)` (not JSON or absurdly
+    nested, not an object, no `pake_v1`, not a hex string) → `got_pake_bad` -/
 def parsePake : Bytes → Option Bytes
   | 1 :: m => some m
   | _ => none
@@ -94,14 +96,13 @@ def parsePake : Bytes → Option Bytes
 inductive Exn where
   | noTransition (machine : String)
   | assertion
-  | pakeError          -- raised by `SPAKE2.finish`
   | typeError
   | noKeyError
   | valueError
   deriving DecidableEq, Repr
 
 def Exn.name : Exn → String
-  | .noTransition _ => "NoTransition" | .assertion => "AssertionError" | .pakeError => "SPAKEError"
+  | .noTransition _ => "NoTransition" | .assertion => "AssertionError"
   | .typeError => "TypeError" | .noKeyError => "NoKeyError" | .valueError => "ValueError"
 
 /-- `Boss._result` -/
@@ -350,7 +351,7 @@ def receiveIn (C : Crypto) (cfg : Cfg) (i : RIn) (s : St) : Res :=
 /-- `Receive.got_message(side, phase, body)` -/
 def receiveGotMessage (C : Crypto) (cfg : Cfg) (m : Msg) (s : St) : Res :=
   match s.rkey with
-  | none => raise .assertion s                          -- `assert self._key`
+  | none => receiveIn C cfg .bad s                      -- `if self._key is None: self.got_message_bad(); return`
   | some key =>
     let dk := phaseKey C key m.side m.phase
     match C.unbox dk m.body with
@@ -380,7 +381,7 @@ def sortedKeyOut (C : Crypto) (cfg : Cfg) (i : SKIn) (o : SortedKey.Output) (s :
     | none => raise .typeError s                        -- AttributeError: no `_sp`
     | some (pw, idS) =>
       match C.pakeFinish pw idS cfg.rnd msg2 with
-      | none => raise .pakeError s
+      | none => bossIn C cfg .scared s                  -- `except (AssertionError, ValueError, SPAKEError, NotOnCurve): self._B.scared(); return`
       | some key =>
         andThen (bossIn C cfg (.gotKey key) s) fun s1 =>
         let dk := phaseKey C key cfg.side "version"
@@ -486,10 +487,10 @@ def callShape : List (String × List (String × String)) :=
     ("Key.deliver_code", [("-", "_SK.got_code")]),
     ("Key.deliver_pake", [("-", "_SK.got_pake")]),
     ("Key.deliver_code_and_stashed_pake", [("-", "_SK.got_code"), ("-", "_SK.got_pake")]),
-    ("_SortedKey.got_pake", [("if", "self.got_pake_good"), ("else", "self.got_pake_bad")]),
+    ("_SortedKey.got_pake", [("except", "self.got_pake_bad"), ("-", "self.got_pake_good")]),
     ("_SortedKey.build_pake", [("-", "SPAKE2_Symmetric"), ("-", "_sp.start"), ("-", "_M.add_message")]),
     ("_SortedKey.scared", [("-", "_B.scared")]),
-    ("_SortedKey.compute_key", [("-", "_B.got_key"), ("-", "derive_phase_key"), ("-", "encrypt_data"),
+    ("_SortedKey.compute_key", [("except", "_B.scared"), ("-", "_B.got_key"), ("-", "derive_phase_key"), ("-", "encrypt_data"),
                                 ("-", "_M.add_message"), ("-", "_R.got_key")]),
     ("Order.got_message", [("if", "self.got_pake"), ("else", "self.got_non_pake")]),
     ("Order.queue", []),
@@ -497,7 +498,7 @@ def callShape : List (String × List (String × String)) :=
     ("Order.drain", [("for", "self._deliver")]),
     ("Order.deliver", [("-", "self._deliver")]),
     ("Order._deliver", [("-", "_R.got_message")]),
-    ("Receive.got_message", [("-", "derive_phase_key"), ("try", "decrypt_data"),
+    ("Receive.got_message", [("if", "self.got_message_bad"), ("-", "derive_phase_key"), ("try", "decrypt_data"),
                              ("except", "self.got_message_bad"), ("-", "self.got_message_good")]),
     ("Receive.record_key", []),
     ("Receive.S_got_verified_key", [("-", "_S.got_verified_key")]),
@@ -564,7 +565,9 @@ nfc <rawhex> <nfchex>                 -> ok        (declare the NFC form of a st
 client <i> <appidhex> <versionshex>   -> ok        (create client i; side "s<i>", scalar [i])
 code <i> <codehex>                    -> summary   (B.got_code; K.got_code)
 rx <i> <from> <phase>                 -> summary   (O.got_message with the body client <from> sent for <phase>)
-rxbad <i> <from> <phase> <kind>       -> summary   (kind: nopake | garbage)
+rxbad <i> <from> <phase> <kind>       -> summary   (kind: nopake = body without usable pake_v1 | refused = element the
+                                                    library refuses (malformed, reflected, wrong side) | accepted = a
+                                                    stranger's valid element | garbage = undecryptable non-PAKE body)
 send <i> <hex> | close <i> | closed <i>            -> summary
 derive <i> <purposehex> <n>           -> #k | NoKeyError | ValueError
 ```
@@ -653,7 +656,11 @@ def step (w : Wd) (line : String) : Wd × String :=
   | ["rxbad", i, frm, phase, kind] =>
     match i.toNat?, frm.toNat? with
     | some n, some f =>
-      let body : Bytes := if kind = "nopake" then [2] else []
+      let body : Bytes :=
+        if kind = "nopake" then [2]
+        else if kind = "refused" then pakeBody []
+        else if kind = "accepted" then pakeBody (enc2 [99] [99])
+        else []
       clientStep w n (fun C cfg => orderGotMessage C cfg ⟨s!"s{f}", phase, body⟩)
     | _, _ => (w, "bad-op")
   | ["send", i, h] =>
